@@ -182,6 +182,14 @@ Definition valid_at (now : Z) (c : cert) : Prop := (nb c <= now < na c)%Z.
 Definition signed_by (sv : sigfun) (par child : cert) : Prop :=
   64 <= rawlen child /\ sv (pk par) child = true.
 
+(* "parent issued child" (the full success condition of VerifyParent): type pairing, the child names
+   the parent's fingerprint (a root names nothing), and the signature *)
+Definition parent_ok (sv : sigfun) (child par : cert) : Prop :=
+  ((ctype child = Leaf /\ ctype par = Intermediate /\ parent child = fp par) \/
+   (ctype child = Intermediate /\ ctype par = Root /\ parent child = fp par) \/
+   (ctype child = Root /\ ctype par = Root /\ parent child = zero_fp)) /\
+  signed_by sv par child.
+
 Definition name_req (o : vopts) (leaf : cert) : Prop :=
   match oname o with None => True | Some n => In n (names leaf) end.
 
